@@ -117,7 +117,7 @@ def run_parallel(fns):
     return out
 
 
-_LOCK = threading.Lock()
+_LOCK = threading.RLock()   # re-entrant: conformance() holds it while classify() records drift under it
 
 
 def add(chk, key, n):
